@@ -160,6 +160,14 @@ FID_HEAP = [_fid("MCHeap", "MCHeap_prio_fid", "heap:6:prio")]
 PLAN["C01"]["fidelity"] = FID_TREES
 PLAN["C07"]["fidelity"] = FID_TREES
 PLAN["C05"]["fidelity"] = FID_RING
+# ---- behaviours generated by TLC's simulator from the implementation-shaped models, replayed on the real code ----
+def _sim(name, num, depth):
+    return dict(spec=name.rstrip("0123456789"), cfg=name + ".cfg", num=num, depth=depth)
+
+SIM_TREES = [_sim("SimRBT", 12, 160), _sim("SimAVL", 12, 160), _sim("SimBT3", 8, 200), _sim("SimBT4", 6, 200),
+             _sim("SimBT5", 6, 200), _sim("SimBT8", 6, 200), _sim("SimBT12", 6, 200)]
+for _p in ("C01", "C02", "C07"):
+    PLAN[_p]["sim"] = SIM_TREES
 PLAN["C06"]["fidelity"] = FID_HEAP
 PLAN["C05"]["proofs"] = [dict(module="RingInv.tla", what="for every capacity >= 1: start, end in range, size = calculateSize(start, end, full), "
                               "full <=> size = capacity is an inductive invariant of the ring's index arithmetic (RingIdx, which MCRing shows the ring model refines)")]
